@@ -1,0 +1,22 @@
+//go:build verif
+
+package device
+
+// Contracts for the deductive checker in /verif (comment-only file).
+
+//vc:func ApproveOrCompare
+//vc:  init isCompareRun = isCompare
+
+// Both front-end paths are verified once per device type (the interface
+// RealDevice is bound to each implementation in turn).
+//vc:func (*state).approve
+//vc:  specialize RealDevice
+//vc:  requires[C11] !isCompareRun
+
+//vc:func (*state).compare
+//vc:  specialize RealDevice
+//vc:  requires[C11] true
+
+//vc:func (*state).applyCommands
+//vc:  specialize RealDevice
+//vc:  requires[C11] !isCompareRun
